@@ -39,6 +39,8 @@ SIG_GIBBS_LIVE = "legacy.Gibbs.sample|returns-live-storage"
 SIG_BATCH = "Sampler.sample|batch:remainder-never-flushed"
 SIG_BATCH2 = "Sampler.sample|batch:next-call-overwrites-files"
 SIG_GIBBS0 = "legacy.Gibbs.sample|continuation-after-Ns=0"
+SIG_GRADBUF = "ULA/MALA/NUTS.current_target_grad|aliases-user-gradient-buffer"
+SIG_STEPSDICT = "HybridGibbs.__init__|num_sampling_steps-dict-shared-with-caller"
 
 
 def coq_ll(ll, ids):
@@ -130,6 +132,15 @@ def facts_of(repo):
         except Exception:
             _FACTS[repo] = {}
     return _FACTS[repo]
+
+
+def facts_for(obj, repo):
+    """extracted facts of the nearest analysed class in the object's MRO (a user subclass inherits its base's code)"""
+    F = facts_of(repo)
+    for k in type(obj).__mro__:
+        if k.__name__ in F:
+            return F[k.__name__]
+    return None
 
 
 def poison_irrelevant(s, f, warm):
@@ -260,13 +271,8 @@ def deep_fp(o, depth=6, seen=None):
     if isinstance(o, dict):
         return "{" + ",".join("%s:%s" % (k, deep_fp(v, depth - 1, seen)) for k, v in sorted(o.items(), key=lambda kv: str(kv[0]))) + "}"
     if isinstance(o, types.FunctionType):
-        cl = []
-        for c in (o.__closure__ or []):
-            try:
-                cl.append(deep_fp(c.cell_contents, depth - 1, seen))
-            except ValueError:
-                cl.append("<empty>")
-        return "f:%s(%s)" % (o.__qualname__, ",".join(cl))
+        # what a user's function captures (its private work buffers included) is the user's business, not the helper's state
+        return "f:%s" % o.__qualname__
     if isinstance(o, types.MethodType):
         return "m:%s.%s" % (type(o.__self__).__name__, o.__func__.__qualname__)
     if isinstance(o, (type, types.ModuleType)):
@@ -306,6 +312,20 @@ class World:
         xg = Gaussian(np.zeros(n), lambda d: 1 / d, name="x")
         yg = Gaussian(A @ xg, lambda l: 1 / l, name="y")
         self.joint = JointDistribution(d, l, xg, yg)(y=ydata)
+        # variable names that coincide with attribute names of the samplers / of HybridGibbs
+        sc_ = Gamma(1, 1e-2, name="scale")
+        s_ = Gamma(1, 1e-2, name="s")
+        xn_ = Gaussian(np.zeros(n), lambda scale: 1 / scale, name="x")
+        yn_ = Gaussian(A @ xn_, lambda s: 1 / s, name="y")
+        # block samplers that precompute from their target and are not the ones HybridGibbs special-cases
+        dl_, ll_ = Gamma(1, 1e-2, name="d"), Gamma(1, 1e-2, name="l")
+        xl_ = LMRF(0, lambda d: 1 / d, geometry=n, name="x")
+        yl_ = Gaussian(A @ xl_, lambda l: 1 / l, name="y")
+        dr_, lr_ = Gamma(1, 1e-2, name="d"), Gamma(1, 1e-2, name="l")
+        xr_ = RegularizedGaussian(np.zeros(n), lambda d: 1 / d, constraint="nonnegativity", name="x")
+        yr_ = Gaussian(A @ xr_, lambda l: 1 / l, name="y")
+        self.joints = {"std": self.joint, "names": JointDistribution(sc_, s_, xn_, yn_)(y=ydata),
+                       "lmrf": JointDistribution(dl_, ll_, xl_, yl_)(y=ydata), "reg": JointDistribution(dr_, lr_, xr_, yr_)(y=ydata)}
         # conditionals of a hyper-parameter: Gaussian-Gamma pair (Conjugate) and LMRF-Gamma pair (ConjugateApprox)
         dc = Gamma(1, 1e-2, name="d")
         xc = Gaussian(np.zeros(n), lambda d: 1 / d, name="x")
@@ -320,8 +340,23 @@ class World:
         A2 = LinearModel(np.array([[1., 0, 1], [0, 2, 1]]))
         y2 = Gaussian(A2 @ xm, 0.5, name="y2")
         postm = JointDistribution(xm, y1, y2)(y1=ydata, y2=np.array([0.5, -1.0]))
-        self.dims = {"g2": 2, "post": n, "postr": n, "postl": n, "conj": 1, "conja": 1, "postm": n}
-        T = {"g2": g2, "post": post, "postr": postr, "postl": postl, "conj": conj, "conja": conja, "postm": postm}
+        # user callables that return a REUSED WORK BUFFER / a non-contiguous (strided, Fortran-derived) result
+        from cuqi.distribution import UserDefinedDistribution
+        mu2 = np.array([0.5, -1.0])
+        gbuf = np.zeros(2)
+
+        def grad_buffer(x):
+            gbuf[:] = -(np.asarray(x) - mu2)
+            return gbuf
+
+        def grad_strided(x):
+            # a column of a C-ordered 2-column array: a genuinely strided (non-contiguous) result
+            return np.ascontiguousarray(np.stack([-(np.asarray(x) - mu2), np.asarray(x)]).T)[:, 0]
+        lp = lambda x: -0.5 * float(np.sum((np.asarray(x) - mu2) ** 2))
+        ubuf = UserDefinedDistribution(dim=2, logpdf_func=lp, gradient_func=grad_buffer)
+        ustr = UserDefinedDistribution(dim=2, logpdf_func=lp, gradient_func=grad_strided)
+        self.dims = {"g2": 2, "post": n, "postr": n, "postl": n, "conj": 1, "conja": 1, "postm": n, "ubuf": 2, "ustr": 2}
+        T = {"g2": g2, "post": post, "postr": postr, "postl": postl, "conj": conj, "conja": conja, "postm": postm, "ubuf": ubuf, "ustr": ustr}
         # experimental interface: name -> (class, target, kwargs)
         self.exp = {
             "MH/scale=0.7": (E.MH, "g2", dict(scale=0.7)),
@@ -340,6 +375,21 @@ class World:
             "Direct": (E.Direct, "g2", dict()),
             "NUTS/step_size=0.5,max_depth=0": (E.NUTS, "g2", dict(step_size=0.5, max_depth=0)),      # falsy but legitimate depth
             "LinearRTO/MultipleLikelihoodPosterior": (E.LinearRTO, "postm", dict(maxit=20)),
+            # user subclasses: dispatch on the exact class name (checkpoints) and on isinstance (HybridGibbs)
+            "MH/user-subclass": (type("MyMH", (E.MH,), {}), "g2", dict(scale=0.7)),
+            "NUTS/user-subclass": (type("MyNUTS", (E.NUTS,), {}), "g2", dict(step_size=0.3, max_depth=3)),
+            # every shipped default (scale, proposal, maxit, tol, max_depth, opt_acc_rate, beta, stepsize ...), default initial point
+            "MH/all-defaults": (E.MH, "g2", dict()), "CWMH/all-defaults": (E.CWMH, "g2", dict()), "PCN/all-defaults": (E.PCN, "post", dict()),
+            "ULA/all-defaults": (E.ULA, "post", dict()), "MALA/all-defaults": (E.MALA, "post", dict()), "NUTS/all-defaults": (E.NUTS, "g2", dict()),
+            "LinearRTO/all-defaults": (E.LinearRTO, "post", dict()), "RegularizedLinearRTO/all-defaults": (E.RegularizedLinearRTO, "postr", dict()),
+            "UGLA/all-defaults": (E.UGLA, "postl", dict()),
+            # integer-dtype parameters, exact zeros inside otherwise generic data
+            "CWMH/int-vector-scale": (E.CWMH, "post", dict(scale=np.array([1, 2, 1]))),
+            "CWMH/scale-with-zero": (E.CWMH, "post", dict(scale=np.array([0.5, 0.0, 1.0]))),
+            # gradient callables returning a reused work buffer / a strided array
+            "ULA/grad-buffer": (E.ULA, "ubuf", dict(scale=0.1)), "MALA/grad-buffer": (E.MALA, "ubuf", dict(scale=0.5)),
+            "NUTS/grad-buffer": (E.NUTS, "ubuf", dict(step_size=0.3, max_depth=3)),
+            "MALA/grad-strided": (E.MALA, "ustr", dict(scale=0.5)), "NUTS/grad-strided": (E.NUTS, "ustr", dict(step_size=0.3, max_depth=3)),
             "Conjugate/GaussianGamma": (E.Conjugate, "conj", dict()),
             "ConjugateApprox/LMRFGamma": (E.ConjugateApprox, "conja", dict()),
         }
@@ -367,7 +417,7 @@ class World:
         self.E, self.Lg = E, Lg
 
     def x0(self, rng, tkey, name=""):
-        if name.endswith("default-x0"):
+        if name.endswith("default-x0") or name.endswith("all-defaults"):
             return None
         d = self.dims[tkey]
         v = [rng.randint(-8, 8) / 8.0 for _ in range(d)]
@@ -389,7 +439,8 @@ class World:
     HYBRID = ["HybridGibbs/RTO+Conjugate", "HybridGibbs/NUTS+MH+Conjugate", "HybridGibbs/RTO+Conjugate,steps={x:2}",
               "HybridGibbs/MALA+MH+Conjugate,steps={x:4,d:4}", "HybridGibbs/CWMH+CWMH+Conjugate,steps={x:2,d:2,l:2}",
               "HybridGibbs/MH+Conjugate+Conjugate,steps={x:4}", "HybridGibbs/RTO+MH+Direct-free,steps={d:1}",
-              "HybridGibbs/MH+MH+Conjugate,steps={x:2,d:4,l:1}"]
+              "HybridGibbs/MH+MH+Conjugate,steps={x:2,d:4,l:1}", "HybridGibbs/RTO+Conjugate,steps={x:0}", "HybridGibbs/names:scale,s",
+              "HybridGibbs/UGLA+ConjugateApprox+Conjugate", "HybridGibbs/RegRTO+Conjugate+Conjugate", "HybridGibbs/user-subclasses"]
 
     def make_hybrid(self, name):
         """block samplers: exact ones (LinearRTO, Conjugate) and rejecting ones (MH, CWMH, MALA with large scales);
@@ -411,8 +462,21 @@ class World:
             "HybridGibbs/MH+MH+Conjugate,steps={x:2,d:4,l:1}": ({"x": E.MH(scale=0.5, initial_point=x3()), "d": E.MH(scale=2.0, initial_point=one(1.0)),
                                                                 "l": E.Conjugate()}, {"x": 2, "d": 4, "l": 1}),
         }
+        table.update({
+            # a configured count of 0 (falsy): the block is never updated
+            "HybridGibbs/RTO+Conjugate,steps={x:0}": ({"x": E.LinearRTO(maxit=20), "d": E.Conjugate(), "l": E.Conjugate()}, {"x": 0}),
+            "HybridGibbs/names:scale,s": ({"x": E.MH(scale=0.4, initial_point=x3()), "scale": E.MH(scale=1.0, initial_point=one(1.0)), "s": E.Conjugate()}, {"scale": 2}),
+            "HybridGibbs/UGLA+ConjugateApprox+Conjugate": ({"x": E.UGLA(maxit=20), "d": E.ConjugateApprox(), "l": E.Conjugate()}, {"x": 2}),
+            "HybridGibbs/RegRTO+Conjugate+Conjugate": ({"x": E.RegularizedLinearRTO(maxit=30, stepsize=0.02), "d": E.Conjugate(), "l": E.Conjugate()}, None),
+            "HybridGibbs/user-subclasses": ({"x": type("MyNUTS", (E.NUTS,), {})(max_depth=3), "d": type("MyMH", (E.MH,), {})(scale=1.0, initial_point=one(1.0)),
+                                            "l": E.Conjugate()}, {"d": 2}),
+        })
         strat, steps = table[name]
-        return E.HybridGibbs(self.joint, strat, steps)
+        self.last_steps = dict(steps or {})          # what the harness configured (missing keys mean 1)
+        return E.HybridGibbs(self.joint_of(name), strat, steps)
+
+    def joint_of(self, name):
+        return self.joints["names" if "names:" in name else "lmrf" if "UGLA" in name else "reg" if "RegRTO" in name else "std"]
 
     def make_gibbs(self, name):
         Lg = self.Lg
@@ -544,7 +608,7 @@ def run_exp(W, name, x0, ops, seed, variant="mem", ledger=None):
         if init_b[0] is None:
             init_b[0] = canon(s.initial_point)
             # helper objects step / tune work through (target, proposal, prior, model ...): fingerprint after first use
-            f_ = facts_of(getattr(W, "repo", "/repo")).get(type(s).__name__) or {}
+            f_ = facts_for(s, getattr(W, "repo", "/repo")) or {}
             for a_ in f_.get("external", []):
                 try:
                     helpers[a_] = (getattr(s, a_), deep_fp(getattr(s, a_)))
@@ -599,7 +663,7 @@ def run_exp(W, name, x0, ops, seed, variant="mem", ledger=None):
                         # behavioural non-interference: whatever the extracted footprint declares irrelevant for the
                         # operations still to come is destroyed in the fresh sampler before the state is loaded
                         warm_later = any(o[0] == "W" for o in ops[len(outs) + 1:])
-                        f = facts_of(getattr(W, "repo", "/repo")).get(type(fresh).__name__)
+                        f = facts_for(fresh, getattr(W, "repo", "/repo"))
                         if f is None:
                             raise RuntimeError("no extracted facts for %s" % type(fresh).__name__)
                         poisoned.extend(poison_irrelevant(fresh, f, warm_later))
@@ -625,11 +689,14 @@ def run_exp(W, name, x0, ops, seed, variant="mem", ledger=None):
         arr = np.asarray(G.samples)
         gs_ok = (arr.shape[-1] == len(smp) and G.Ns == len(smp)
                  and all(canon(arr[..., k]) == smp[k] for k in range(len(smp))))
-    return {"smp": smp, "nacc": len(s._acc), "cb": list(cb), "cb_now": cb_now, "outs_now": outs_now, "tunes": list(tunes),
+    return {"smp": smp, "nacc": len(s._acc), "acc": [canon_val(a) for a in s._acc[1:]], "cb": list(cb), "cb_now": cb_now, "outs_now": outs_now, "tunes": list(tunes),
             "last_resume": last_resume, "handout": led.bad, "ledger": led,
             "state": {k: canon_val(v) for k, v in sorted(s.get_state()["state"].items())},
             "draws": stream.draws(), "gs_ok": gs_ok, "init": init_b[0] if init_b[0] is not None else canon(s.initial_point),
             "poisoned": poisoned, "sampler": s,
+            "x0_given": (canon(np.asarray(build_x0(x0), dtype=float)) if x0 is not None else None),
+            "acc_scalar": type(s).__name__ in ("MH", "PCN", "MALA") and not any(o[0] == "R" for o in ops),
+            "first_prev": init_b[0],
             "helpers_changed": sorted(a_ for a_, (o_, fp_) in helpers.items() if deep_fp(o_) != fp_)}
 
 
@@ -665,6 +732,15 @@ def exp_check(ref, obs, ops):
         if a[0] != b[0]:
             return ("resume" if has_r else "split",
                     "callback %d received %s, the uninterrupted run produced %s at that transition" % (i, fl(a[0]), fl(b[0])))
+    # the acceptance values recorded with the chain (history consumed only by adaptation and diagnostics)
+    k_, base_ = 0, 0
+    for o in ops:
+        if o[0] == "R":
+            base_ = k_
+        else:
+            k_ += o[1]
+    if obs.get("acc") is not None and ref.get("acc") is not None and obs["acc"] != ref["acc"][base_:k_]:
+        return ("resume" if has_r else "split", "the acceptance values recorded in _acc differ from those of the uninterrupted run")
     if obs["nacc"] != 1 + len(obs["smp"]):
         return ("record", "len(_acc) = %d for %d recorded samples" % (obs["nacc"], len(obs["smp"])))
     if not obs["gs_ok"]:
@@ -676,6 +752,17 @@ def exp_check(ref, obs, ops):
         return ("resume" if has_r else "split", "the random stream is consumed differently (%d vs %d draws)" % (len(obs["draws"]), len(ref["draws"])))
     if obs.get("handout"):
         return ("handout:" + obs["handout"][0], obs["handout"][1])
+    if obs.get("x0_given") is not None and obs["init"] != obs["x0_given"]:
+        return ("record", "the sampler's initial point %s is not the one it was constructed with %s" % (fl(obs["init"]), fl(obs["x0_given"])))
+    if obs.get("acc_scalar"):
+        # acceptance flags are consumed only by adaptation and diagnostics: flag k says whether transition k moved the chain
+        prev = obs.get("first_prev")
+        for k, (a_, b_) in enumerate(zip(obs["acc"], obs["smp"])):
+            if prev is not None and a_ in ("f:" + canon(0).hex(), "f:" + canon(1).hex()):
+                if (a_ == "f:" + canon(1).hex()) != (b_ != prev):
+                    return ("record", "acceptance value %d recorded for transition %d although the chain %s" % (
+                        int(a_ == "f:" + canon(1).hex()), k, "did not move" if b_ == prev else "moved"))
+            prev = b_
     if obs.get("helpers_changed"):
         return ("helpers", "the run modified the helper object(s) %s it works through (deep comparison before / after)" % obs["helpers_changed"])
     # documented contract of warmup(Nb, tune_freq): tune(interval, count) after every interval-th step, interval =
@@ -853,9 +940,12 @@ def run_hybrid(W, name, ops, seed, scribble=False):
     outs = []
     stream = Stream(seed, record=True)
     sweeps, mh_bad, mh_checked = [], [], [0, 0]
-    joint_fp = deep_fp(W.joint)          # the user's joint distribution: HybridGibbs works on its own copy
+    J_ = W.joint_of(name)
+    joint_fp = deep_fp(J_)          # the user's joint distribution: HybridGibbs works on its own copy
+    counts, pre_bad = {}, []
     with stream, quiet():
         h = W.make_hybrid(name)
+        expected_steps = dict(W.last_steps)
         names = h.par_names
         cur = {p: np.array(h.samplers[p].initial_point, dtype=float).reshape(-1).copy() for p in names}
 
@@ -864,7 +954,7 @@ def run_hybrid(W, name, ops, seed, scribble=False):
             kw[p] = v
             with np.errstate(all="ignore"):
                 try:
-                    return float(np.asarray(W.joint.logd(**kw)).reshape(-1)[0])
+                    return float(np.asarray(J_.logd(**kw)).reshape(-1)[0])
                 except Exception:
                     return float("nan")
 
@@ -872,12 +962,31 @@ def run_hybrid(W, name, ops, seed, scribble=False):
             orig = smp.step
 
             def step():
+                counts[p] = counts.get(p, 0) + 1
+                if counts[p] == 1 and not pre_bad:
+                    # per-class precomputation (LinearRTO / RegularizedLinearRTO / UGLA blocks): whatever the block derived from
+                    # its target at initialisation and does not rewrite in step must be what a sampler initialised now on the
+                    # block's current conditional target derives
+                    f_ = facts_for(smp, getattr(W, "repo", "/repo")) or {}
+                    pre = [a for a in f_.get("init_w", []) if a not in f_.get("state", []) and a not in f_.get("hist", []) and a not in f_.get("step_w", [])
+                           and a not in ("_is_initialized", "initial_point") and hasattr(smp, a)]
+                    if pre and type(smp).__name__ in ("LinearRTO", "RegularizedLinearRTO", "UGLA"):
+                        try:
+                            kw_ = {k_: getattr(smp, k_) for k_ in ("maxit", "tol", "beta", "stepsize", "abstol", "adaptive") if hasattr(smp, k_)}
+                            tw = type(smp)(smp.target, initial_point=np.array(smp.initial_point, dtype=float), **kw_)
+                            tw.initialize()
+                            diff = [a for a in pre if deep_fp(getattr(smp, a)) != deep_fp(getattr(tw, a))]
+                            if diff:
+                                pre_bad.append("block %s (%s), sweep %d: precomputed %s are not those of a sampler initialised on the block's current "
+                                               "conditional target" % (p, type(smp).__name__, len(sweeps), diff))
+                        except Exception:
+                            pass
                 i0 = len(stream.values)
                 x = np.array(smp.current_point, dtype=float).reshape(-1).copy()
                 scale = getattr(smp, "scale", None)
                 acc = orig()
                 x1 = np.array(smp.current_point, dtype=float).reshape(-1).copy()
-                if type(smp).__name__ == "MH" and not mh_bad:
+                if isinstance(smp, W.E.MH) and not mh_bad:
                     draws = stream.values[i0:]
                     arr = [v for k, v in draws if np.size(v) == x.size and k != "rand"]
                     us = [v for k, v in draws if k == "rand"]
@@ -907,7 +1016,11 @@ def run_hybrid(W, name, ops, seed, scribble=False):
         osweep = h.step
 
         def sweep():
+            counts.clear()
             osweep()
+            want_ = {p: expected_steps.get(p, 1) for p in names}
+            if dict((p, counts.get(p, 0)) for p in names) != want_ and not pre_bad:
+                pre_bad.append("sweep %d: inner transitions per block %s, configured %s" % (len(sweeps), dict((p, counts.get(p, 0)) for p in names), want_))
             sweeps.append(b"".join(canon(h.samplers[p].current_point) for p in names))
         h.step = sweep
         for o in ops:
@@ -927,9 +1040,17 @@ def run_hybrid(W, name, ops, seed, scribble=False):
     smp = [b"".join(canon(h.samples[n][k]) for n in names) for k in range(ns)]
     G = h.get_samples()
     gs_ok = all(np.asarray(G[n].samples).shape[-1] == ns for n in names) and joint_cols(G, names) == smp
+    if ns >= 2:
+        # burn-in / thinning of the composite's chain: JointSamples.burnthin member by member
+        for nb_, nt_ in ((1, 1), (0, 2), (ns - 1, 1), (1, ns)):
+            try:
+                B_ = h.get_samples().burnthin(nb_, nt_)
+                gs_ok = gs_ok and joint_cols(B_, names) == smp[nb_::nt_]
+            except Exception:
+                gs_ok = False
     return {"smp": smp, "gs_ok": gs_ok, "handout": led.bad, "outs_now": [joint_cols(R, names) for R in outs],
-            "sweeps": sweeps, "mh_bad": (mh_bad[0] if mh_bad else None) or
-            ("the joint distribution handed to HybridGibbs was modified by the run (deep comparison)" if deep_fp(W.joint) != joint_fp else None),
+            "sweeps": sweeps, "mh_bad": (mh_bad[0] if mh_bad else None) or (pre_bad[0] if pre_bad else None) or
+            ("the joint distribution handed to HybridGibbs was modified by the run (deep comparison)" if deep_fp(J_) != joint_fp else None),
             "mh_checked": tuple(mh_checked),
             "steps": dict(h.num_sampling_steps)}
 
@@ -1026,6 +1147,8 @@ def exp_case(W, cache, name, x0, ops, seed, variant):
         sig = "%s.%s|%s" % (cls, kind, name.split("/", 1)[1] if "/" in name else "default")
         if name == "RegularizedLinearRTO/stepsize=automatic" and bad[0] in ("split", "resume"):
             sig = SIG_RTO       # two sampler objects never agree bit for bit in this configuration class
+        if name.endswith("/grad-buffer") and (bad[0] in ("split", "resume", "handout:get_state") or kind in ("scribble", "noninterference")):
+            sig = SIG_GRADBUF   # the state holds the very array the user's gradient callable returned (and refills on its next call)
     frozen = len(set(ref["smp"])) < 3 and total(ops) >= 3        # a chain that never moves tests nothing
     return Case(expr=expr, meta=meta, cell=cell, trivial=(not has_r and nS <= 1 and not has_w and not scribble) or frozen,
                 kind="DECISION", impl_fail=("%s %s [%s]: %s" % (name, ops, variant, bad[1])) if bad else None, signature=sig)
@@ -1193,9 +1316,11 @@ def warm_case(W, name, x0, a, b, n, seed, variant):
         bad = ("%s: the extracted facts promise that a checkpoint between warm-up calls can be continued (%s), but [warmup %d; checkpoint(%s); "
                "warmup %d; sample %d] %s" % (name, why, a, variant, b, n, ("raised " + err) if err else "differs from the uninterrupted run"))
     expr = "check_warm %s %s" % (cbool(static_ok), cbool(same))
+    sig = "%s.resume-warmup|%s" % (cls, name.split("/", 1)[1] if "/" in name else "default") if bad else ""
+    if bad and name.endswith("/grad-buffer"):
+        sig = SIG_GRADBUF
     return Case(expr=expr, meta=meta, cell="warm-resume/%s/%s-%s" % (cls, "promised" if static_ok else "not-promised", "same" if same else "differs"),
-                trivial=False, kind="DECISION", impl_fail=bad,
-                signature="%s.resume-warmup|%s" % (cls, name.split("/", 1)[1] if "/" in name else "default") if bad else "")
+                trivial=False, kind="DECISION", impl_fail=bad, signature=sig)
 
 
 def batch_dir():
@@ -1366,6 +1491,157 @@ def hybrid_resume_case(W, name, warm, k, n, seed):
                 impl_fail=bad, signature="HybridGibbs.composite-resume|%s" % name.split("/", 1)[1] if bad else "")
 
 
+def _solo(W, name, x0, ops, seed):
+    r = run_exp(W, name, x0, ops, seed)
+    return r["smp"], r["state"]
+
+
+def twins_case(W, name, x0, seed):
+    """two samplers alive at once, constructed from the SAME argument objects (target, initial-point array, scale array ...)
+    and advanced alternately, each under its own random stream: each must record the chain it records alone"""
+    cls, tkey, kw = W.exp[name]
+    meta = {"kind": "twins", "config": name, "x0": x0, "seed": seed}
+    shared_kw = dict(kw)                                   # the very same objects go to both constructors
+    if x0 is not None:
+        shared_kw["initial_point"] = build_x0(x0)
+    opsA = [("S", 2), ("W", 2, 1, 2), ("S", 3)]
+    opsB = [("S", 3), ("S", 1), ("W", 3, 1, 2), ("S", 2)]
+    soloA, soloB = _solo(W, name, x0, opsA, seed), _solo(W, name, x0, opsB, seed + 1)
+    a, b = cls(W.targets[tkey], **shared_kw), cls(W.targets[tkey], **shared_kw)
+    sa, sb = Stream(seed), Stream(seed + 1)
+
+    def do(s, st, o):
+        with st, quiet():
+            s.sample(o[1]) if o[0] == "S" else s.warmup(o[1], o[2] / o[3])
+    order = [(a, sa, opsA[0]), (b, sb, opsB[0]), (b, sb, opsB[1]), (a, sa, opsA[1]), (b, sb, opsB[2]), (a, sa, opsA[2]), (b, sb, opsB[3])]
+    for s_, st_, o_ in order:
+        do(s_, st_, o_)
+    gotA = ([canon(x) for x in a._samples], {k: canon_val(v) for k, v in sorted(a.get_state()["state"].items())})
+    gotB = ([canon(x) for x in b._samples], {k: canon_val(v) for k, v in sorted(b.get_state()["state"].items())})
+    ids = Ids()
+    refA = [ids(b"init")] + [ids(x) for x in soloA[0]]
+    bad = None
+    if gotA != soloA or gotB != soloB:
+        bad = "%s: two samplers built from the same argument objects and advanced alternately do not record the chains they record alone (%s)" % (
+            name, "first" if gotA != soloA else "second")
+    expr = "zl_eqb %s %s && %s" % (czvec([ids(x) for x in soloA[0]]), czvec([ids(x) for x in gotA[0]]), cbool(gotB == soloB and gotA[1] == soloA[1]))
+    sig = ""
+    if bad:
+        sig = "%s.twins|%s" % (cls.__name__, name.split("/", 1)[-1])
+        if name.endswith("/grad-buffer"):
+            sig = SIG_GRADBUF
+    return Case(expr=expr, meta=meta, cell="twins/%s" % cls.__name__, trivial=False, kind="DECISION", impl_fail=bad, signature=sig)
+
+
+def refusal_case(W, name, x0, seed):
+    """refused calls in every life-cycle state (constructed / initialised / after sample / after warmup / after a refused
+    call): set_state with another sampler's type or an unknown key, a second initialize().  Each must raise ValueError and
+    leave the run exactly as it would have been without it"""
+    cls, tkey, kw = W.exp[name]
+    meta = {"kind": "refusal", "config": name, "x0": x0, "seed": seed}
+    ops = [("S", 2), ("W", 2, 1, 2), ("S", 2)]
+    ref = run_exp(W, name, x0, ops, seed)
+    s = W.make_exp(name, x0)
+    other = "MALA" if cls.__name__ != "MALA" else "ULA"
+    st = Stream(seed)
+    notes = []
+
+    def refuse(tag):
+        valid = dict(s.get_state()["state"]) if s._is_initialized else {}
+        for what, payload in (("foreign type", {"metadata": {"sampler_type": other}, "state": valid}),
+                              ("unknown key", {"metadata": {"sampler_type": cls.__name__}, "state": {"no_such_key": 1.0}})):
+            try:
+                s.set_state(payload)
+                notes.append("%s: set_state with %s was accepted" % (tag, what))
+            except ValueError:
+                pass
+            except Exception as e:
+                notes.append("%s: set_state with %s raised %s instead of ValueError" % (tag, what, type(e).__name__))
+        if s._is_initialized:
+            try:
+                s.initialize()
+                notes.append("%s: a second initialize() was accepted" % tag)
+            except ValueError:
+                pass
+    refuse("constructed")
+    with st, quiet():
+        s.sample(0)
+    refuse("initialised")
+    with st, quiet():
+        s.sample(2)
+    refuse("after sample")
+    with st, quiet():
+        s.warmup(2, 0.5)
+    refuse("after warmup")
+    refuse("after a refused call")
+    with st, quiet():
+        s.sample(2)
+    got = [canon(x) for x in s._samples]
+    stt = {k: canon_val(v) for k, v in sorted(s.get_state()["state"].items())}
+    bad = None
+    if notes:
+        bad = "%s: %s" % (name, "; ".join(notes[:3]))
+    elif got != ref["smp"] or stt != ref["state"]:
+        bad = "%s: refused set_state / initialize calls changed the run (chain or state differ from the run without them)" % name
+    ids = Ids()
+    expr = "zl_eqb %s %s && %s" % (czvec([ids(x) for x in ref["smp"]]), czvec([ids(x) for x in got]), cbool(not notes and stt == ref["state"]))
+    sig = ("%s.refusal|%s" % (cls.__name__, name.split("/", 1)[-1])) if bad else ""
+    if bad and name.endswith("/grad-buffer") and not notes:
+        sig = SIG_GRADBUF
+    return Case(expr=expr, meta=meta, cell="refusal/%s" % cls.__name__, trivial=False, kind="DECISION", impl_fail=bad, signature=sig)
+
+
+def x0_overwrite_case(W, name, x0, seed):
+    """aliasing over time: the caller overwrites, in place, the array it passed as initial_point after the chain has left it
+    (samplers whose every transition moves): N, overwrite, M must be N + M"""
+    cls, tkey, kw = W.exp[name]
+    meta = {"kind": "x0-overwrite", "config": name, "x0": x0, "seed": seed}
+    ref = run_exp(W, name, x0, [("S", 6)], seed)
+    user = np.array(x0, dtype=float)
+    s = cls(W.targets[tkey], initial_point=user, **{k: (v.copy() if isinstance(v, np.ndarray) else v) for k, v in kw.items()})
+    st = Stream(seed)
+    with st, quiet():
+        s.sample(3)
+    user[:] = 77.0
+    with st, quiet():
+        s.sample(3)
+    got = [canon(x) for x in s._samples]
+    bad = None if got == ref["smp"] else "%s: overwriting the caller's initial-point array after 3 transitions changed the chain" % name
+    ids = Ids()
+    expr = "zl_eqb %s %s" % (czvec([ids(x) for x in ref["smp"]]), czvec([ids(x) for x in got]))
+    return Case(expr=expr, meta=meta, cell="x0-overwrite/%s" % cls.__name__, trivial=False, kind="DECISION", impl_fail=bad,
+                signature="%s.x0-overwrite|%s" % (cls.__name__, name.split("/", 1)[-1]) if bad else "")
+
+
+def stepsdict_case(W, seed):
+    """the caller's num_sampling_steps dict: not modified by HybridGibbs, and free to be changed by the caller afterwards"""
+    E = W.E
+    meta = {"kind": "stepsdict", "seed": seed}
+    mk = lambda: {"x": E.MH(scale=0.5, initial_point=np.array([0.25, -0.5, 0.75])), "d": E.Conjugate(), "l": E.Conjugate()}
+    with Stream(seed), quiet():
+        r = E.HybridGibbs(W.joint, mk(), {"x": 2})
+        r.sample(8)
+    ref = [b"".join(canon(r.samples[n][k]) for n in r.par_names) for k in range(8)]
+    user = {"x": 2}
+    with Stream(seed), quiet():
+        h = E.HybridGibbs(W.joint, mk(), user)
+        kept = dict(user) == {"x": 2}
+        h.sample(4)
+        user["x"] = 4               # the caller goes on using its dict, e.g. to configure another sampler
+        user["d"] = 3
+        h.sample(4)
+    got = [b"".join(canon(h.samples[n][k]) for n in h.par_names) for k in range(8)]
+    bad = None
+    if not kept or got != ref:
+        bad = ("HybridGibbs keeps (and fills in) the caller's num_sampling_steps dict instead of a copy: %s" %
+               ("; ".join(x for x in ["after construction the caller's dict is %s" % ({"x": 2} if kept else "extended with the missing keys"),
+                                      "changing it between sample(4) and sample(4) changes the chain" if got != ref else ""] if x)))
+    ids = Ids()
+    expr = "zl_eqb %s %s && %s" % (czvec([ids(x) for x in ref]), czvec([ids(x) for x in got]), cbool(kept))
+    return Case(expr=expr, meta=meta, cell="gibbs/HybridGibbs/callers-steps-dict", trivial=False, kind="DECISION", impl_fail=bad,
+                signature=SIG_STEPSDICT if bad else "")
+
+
 def burn_cases(W, name, x0, ops, seed, grid):
     """stateful interface: burn-in / thinning are applied afterwards to get_samples()"""
     cls = W.exp[name][0].__name__
@@ -1423,6 +1699,8 @@ def reinit_case(W, name, x0, prefix, K, seed, reassign=None):
             sig = SIG_RTO
     elif r["handout"]:
         bad, sig = "%s, history %s, then reinitialize: %s" % (name, prefix, r["handout"][1]), "%s.reinitialize|handout:%s" % (cls, r["handout"][0])
+        if name.endswith("/grad-buffer") and r["handout"][0] == "get_state":
+            sig = SIG_GRADBUF
     expr = "check_exp %s %s %s %s %s [] && %s" % (czvec(ref_ids), coq_ops([("S", K)]), czvec([ids(b) for b in r["smpA"]]), cnat(r["nacc"]),
                                                   coq_cb([(ids(b), i) for b, i in r["cb"]]), cbool(not r["cfg_diff"] and r["hist"] == (0, 1) and not r["handout"]))
     return Case(expr=expr, meta=meta, cell="reinit/%s%s" % (cls, "/reassigned-x0" if reassign is not None else ""), trivial=False, kind="DECISION", impl_fail=bad, signature=sig)
@@ -1542,9 +1820,21 @@ def footprint_stage(ctx, known):
 # ------------------------------------------------------------------------------------------------------------------
 # generator
 # ------------------------------------------------------------------------------------------------------------------
-def exp_ops_lattice(ctx, rng, warm_capable=True):
-    """operation sequences for one configuration: [(ops, variant)]"""
+def exp_ops_lattice(ctx, rng, warm_capable=True, light=False):
+    """operation sequences for one configuration: [(ops, variant)]; light: the reduced lattice used for the configuration
+    families added by the lessons rounds (same kinds of sequences, fewer positions)"""
     out = []
+    if light and not ctx.thorough:
+        N = 4
+        for k in (0, 2, 4):
+            out.append(([("S", k), ("S", N - k)], "mem"))
+            out.append(([("S", k), ("R",), ("S", N - k)], ("mem", "file", "live")[k // 2]))
+        out.append(([("S", 2), ("R",), ("S", 2)], "poison"))
+        out.append(([("S", 1), ("S", 3)], "mem+scribble"))
+        out.append(([("W", 5, 1, 4), ("S", 2), ("R",), ("S", 2)], "mem"))
+        out.append(([("W", 4, 1, 2), ("S", 1), ("R",), ("S", 2)], "poison"))
+        out.append(([("S", 1)], "mem"))
+        return out
     N = ctx.n(12, 40)
     for k in range(N + 1):
         out.append(([("S", k), ("S", N - k)], "mem"))
@@ -1569,6 +1859,9 @@ def exp_ops_lattice(ctx, rng, warm_capable=True):
         out.append(([("S", a), ("R",), ("S", b), ("R",), ("S", c)], rng.choice(["mem", "live", "file"])))
         out.append(([("W", rng.randint(1, 6), 1, rng.choice([1, 2, 10])), ("S", a), ("R",), ("S", b), ("S", c)], "mem"))
     out.append(([("S", N)], "mem"))
+    # exactly one draw in the whole history / on either side of a checkpoint
+    out += [([("S", 1)], "mem"), ([("S", 0), ("S", 1)], "mem"), ([("S", 1), ("R",), ("S", 0)], "mem"), ([("S", 0), ("R",), ("S", 1)], "file"),
+            ([("W", 1, 1, 2), ("S", 1)], "mem")]
     # exact thresholds of the tuning interval int(tune_freq * Nb) (1.0 -> 1, 1.9 -> 1, 2.0 -> 2), tune_freq = 0, warmup(0)
     for w in (("W", 10, 1, 10), ("W", 19, 1, 10), ("W", 20, 1, 10), ("W", 6, 0, 1), ("W", 0, 1, 2)):
         out.append(([w, ("S", 2), ("R",), ("S", 2)], "mem"))
@@ -1607,17 +1900,26 @@ def gen_cases(ctx, rng, thorough_sizes=None):
         for si in range(nseeds):
             x0 = W.x0(rng, tkey, name)
             seed = rng.randint(1, 10 ** 6)
-            for ops, variant in exp_ops_lattice(ctx, rng):
+            light = any(t in name for t in ("user-subclass", "all-defaults", "int-vector-scale", "scale-with-zero", "grad-buffer", "grad-strided", "max_depth=0",
+                                            "MultipleLikelihoodPosterior"))
+            if light and si > 0 and not ctx.thorough:
+                continue
+            for ops, variant in exp_ops_lattice(ctx, rng, light=light):
                 cases.append(guard(exp_case, W, cache, name, x0, ops, seed, variant))
         cache.clear()
         # declaration style, dtype and memory layout of the initial point
-        if not name.endswith("default-x0"):
+        if not (name.endswith("default-x0") or name.endswith("all-defaults")):
             d_ = W.dims[tkey]
             for style in ("list", "float32", "int", "view"):
                 cases.append(guard(style_case, W, name, [1.0, 2.0, 1.0][:d_], style, rng.randint(1, 10 ** 6)))
             cases.append(guard(style_case, W, name, [0.0] * d_, "view", rng.randint(1, 10 ** 6)))           # all-zero (falsy) start
+            cases.append(guard(style_case, W, name, [0.0, 2.0, 0.0][:d_], "array", rng.randint(1, 10 ** 6)))  # exact zeros among generic entries
             # a constructor argument re-assigned by the user, then reinitialize: the configuration is the re-assigned one
             cases.append(guard(reinit_case, W, name, W.x0(rng, tkey, name), [("S", 2)], 3, rng.randint(1, 10 ** 6), reassign=W.x0(rng, tkey, name)))
+        cases.append(guard(twins_case, W, name, W.x0(rng, tkey, name), rng.randint(1, 10 ** 6)))
+        cases.append(guard(refusal_case, W, name, W.x0(rng, tkey, name), rng.randint(1, 10 ** 6)))
+        if W.exp[name][0].__name__ in ("ULA", "LinearRTO", "UGLA", "Direct", "RegularizedLinearRTO") and not name.endswith("all-defaults"):
+            cases.append(guard(x0_overwrite_case, W, name, W.x0(rng, tkey, name), rng.randint(1, 10 ** 6)))
         # burn-in / thinning afterwards (boundaries: Nb = 0, = warm-up length, = Ns-1, = Ns (refused); Nt = 0 (refused), 1, 2, > Ns)
         nb, n = 4, ctx.n(5, 9)
         grid = [(b, t) for b in (0, nb, nb + n - 1, nb + n) for t in (0, 1, 2, nb + n + 1)]
@@ -1682,6 +1984,7 @@ def gen_cases(ctx, rng, thorough_sizes=None):
             n = ctx.n(16, 60)
             for ops in ([("S", n)], [("S", 3), ("S", n - 3)], [("S", 0), ("S", n)]):
                 cases.append(guard(hybrid_case, W, name, w + ops, seed))
+    cases.append(guard(stepsdict_case, W, rng.randint(1, 10 ** 6)))
     for name in W.HYBRID:
         for warm in (0, 4):
             for k in ((0, 3) if not ctx.thorough else (0, 1, 3, 7)):
@@ -1734,6 +2037,14 @@ def _rerun(ctx, m):
         return gibbs_case(W, m["calls"], m["Nb"], m["seed"], scribble=m.get("scribble", False))
     if k == "hybrid":
         return hybrid_case(W, m["config"], [tuple(o) for o in m["ops"]], m["seed"], scribble=m.get("scribble", False))
+    if k == "twins":
+        return twins_case(W, m["config"], m["x0"], m["seed"])
+    if k == "refusal":
+        return refusal_case(W, m["config"], m["x0"], m["seed"])
+    if k == "x0-overwrite":
+        return x0_overwrite_case(W, m["config"], m["x0"], m["seed"])
+    if k == "stepsdict":
+        return stepsdict_case(W, m["seed"])
     if k == "hybrid-resume":
         return hybrid_resume_case(W, m["config"], m["warm"], m["k"], m["n"], m["seed"])
     if k == "cross":
@@ -1829,6 +2140,10 @@ def known_witnesses(ctx):
     # legacy Gibbs: sample(0, Nb) then sample(M)
     c = gibbs_case(W, [0, 3], 2, 17)
     out[SIG_GIBBS0] = (c.signature == SIG_GIBBS0, c.impl_fail or "continues from the warm-up chain")
+    c = stepsdict_case(W, 18)
+    out[SIG_STEPSDICT] = (c.signature == SIG_STEPSDICT, c.impl_fail or "the caller's dict is left alone and may be changed afterwards")
+    c = exp_case(W, {}, "MALA/grad-buffer", [0.25, 0.5], [("S", 3), ("R",), ("S", 3)], 19, "mem")
+    out[SIG_GRADBUF] = (c.signature == SIG_GRADBUF, c.impl_fail or "the state holds its own copy of the gradient")
     # NUTS.reinitialize resets max_depth to the default
     c = reinit_case(W, "NUTS/step_size=0.3,max_depth=2", [0.5, -0.25], [("S", 2)], 3, 14)
     out[SIG_NUTS] = (c.signature == SIG_NUTS, c.impl_fail or "max_depth kept")
